@@ -276,6 +276,10 @@ def iteration_shape(chk, prog):
                 for s_ in ast.walk(f.node):
                     if isinstance(s_, ast.Assign) and isinstance(s_.targets[0], ast.Name) and s_.targets[0].id == rhs.id and isinstance(s_.value, ast.Constant):
                         tol = s_.value.value
+                if tol is None:          # a module-level constant
+                    for s_ in f.module.tree.body:
+                        if isinstance(s_, ast.Assign) and isinstance(s_.targets[0], ast.Name) and s_.targets[0].id == rhs.id and isinstance(s_.value, ast.Constant):
+                            tol = s_.value.value
             if not (isinstance(tol, (int, float)) and 0 < tol <= 1e-6):
                 problems.append("the tolerance of the loop test is not a positive literal <= 1e-6 rad (got %r)" % (tol,))
             # body: one of the two names is saved from the other before the other is recomputed
